@@ -5,6 +5,7 @@ Proof/KernelsPdep — bit-level semantics of the PDEP model, `ilog2` as highest 
 import SuccinctlyVerif.Proof.Kernels
 namespace SV.Kernels
 open SV SV.KList
+attribute [local simp] SV.Kernels.wordBits_length
 
 /-- Converse characterisation of `selectB`. -/
 theorem selectB_some_spec (bs : List Bool) (k q : Nat) (h : selectB true bs k = some q) :
